@@ -368,7 +368,8 @@ def citem(m):
     return "(%s %s %s)" % ("IAttr" if m["t"] == "attr" else "ILink", caddr(m["a"]), ckey(m["k"]))
 
 
-ERRS = {"KeyError": "KeyError", "TypeError": "TypeError", "UserWarning": "UserWarning", "FileNotFoundError": "FileNotFoundError"}
+ERRS = {"KeyError": "KeyError", "TypeError": "TypeError", "AttributeError": "AttributeError", "UserWarning": "UserWarning",
+        "FileNotFoundError": "FileNotFoundError"}
 
 
 def _obs_term(ob):
